@@ -54,9 +54,16 @@ type c15HammerCfg struct {
 	Handles int   `json:"handles"` // O_RDWR handles of the one file; goroutine g works through handle g mod Handles
 	Sample  int   `json:"stamped_pairs_each"`
 	Seed    int64 `json:"seed"`
+	// Mode "distinct" (c15_distinct.go): Spec lists handles that differ observably ("A:r", "B:rw" …: file and open
+	// mode); goroutine g works through handle g mod len(Spec) on region g.
+	Mode string   `json:"mode,omitempty"`
+	Spec []string `json:"handle_spec,omitempty"`
 }
 
 func (c c15HammerCfg) text() string {
+	if c.Mode == "distinct" {
+		return fmt.Sprintf("hammer distinct-handles %s alloc=%v goroutines=%d region=%d handles=%s ms=%d seed=%d", c.Server, c.Alloc, c.Goroutines, c.Region, strings.Join(c.Spec, ","), c.MaxMs, c.Seed)
+	}
 	return fmt.Sprintf("hammer %s alloc=%v goroutines=%d pairs=%d region=%d handles=%d stamped=%d volley=%d seed=%d", c.Server, c.Alloc, c.Goroutines, c.PairsEach, c.Region, c.Handles, c.Sample, c.Volley, c.Seed)
 }
 
@@ -206,6 +213,13 @@ func (f c15HFile) Stat() (fs.FileInfo, error) { return f.VerifFile.Stat() }
 
 // c15HammerRun runs one hammer in this process.
 func c15HammerRun(cfg c15HammerCfg) (out c15HammerOut) {
+	if cfg.Mode == "distinct" {
+		return c15DistinctRun(cfg)
+	}
+	if cfg.Mode != "" {
+		out.Harness = "hammer: mode " + cfg.Mode
+		return
+	}
 	if err := cfg.valid(); err != nil {
 		out.Harness = err.Error()
 		return
@@ -663,6 +677,9 @@ func c15Hammers(c *lib.Ctx, cfgs []c15HammerCfg) {
 		r.Hist(fmt.Sprintf("hammer/%s-alloc=%v", cfg.Server, cfg.Alloc))
 		r.Hist(fmt.Sprintf("hammer/goroutines=%d", cfg.Goroutines))
 		r.Hist(fmt.Sprintf("hammer/region=%d/handles=%d", cfg.Region, cfg.Handles))
+		if cfg.Mode == "distinct" {
+			r.Hist("hammer/distinct/" + cfg.Server + "/" + strings.Join(cfg.Spec, ","))
+		}
 		total += o.Ops
 		switch {
 		case x.died != "":
